@@ -575,9 +575,10 @@ pub fn scenario(stream: &str, r: &mut Rng, idx: u64) -> Vec<String> {
             let par = if r.chance(1, 5) { 1 } else { 0 };
             let o = CfgOpts { all_codecs: true, deep: false, extreme_levels: false };
             let cfg = gen_cfg(r, &o);
+            let creator = if stream == "sorter" { *r.pick(&["custom", "custom", "custom", "cursorvec", "tempfile"]) } else { "custom" };
             out.push(format!(
-                "scfg thr={} minmem={} init={} realloc={} maxchunks={} stable={} par={} {}",
-                thr, minmem, init, realloc, maxchunks, stable, par, &cfg[4..]
+                "scfg creator={} thr={} minmem={} init={} realloc={} maxchunks={} stable={} par={} {}",
+                creator, thr, minmem, init, realloc, maxchunks, stable, par, &cfg[4..]
             ));
             if stream == "sorterio" {
                 out.push(format!("sfault choppy:{}", r.next() % 100000));
